@@ -133,3 +133,70 @@ H('c18_values_fixed_width', 'property', {'C18': 'quick', 'C02': 'thorough', 'C03
   bounds='every u8/u16/u32 property kind (16 kinds): new(v) and parse(bytes) for all values', symbolic='value per kind', encodes=['<Prop>::new', '<Prop>::parse', 'to_continuous_buffer', 'size'])
 H('c18_values_subscription_identifier', 'property', {'C18': 'quick', 'C04': 'thorough'}, est=60, timeout=900, mem='M',
   bounds='SubscriptionIdentifier::new for all u32; parse for all 4-byte strings', symbolic='u32 value; 4 bytes', encodes=['SubscriptionIdentifier::{new,parse}', 'VariableByteInteger::decode_stream'])
+
+# =============================================================================== codecs (codec_h.rs): C02 / C03 / C04
+def K(name, props, **kw):
+    kw.setdefault('est', 60)
+    kw.setdefault('timeout', 1200)
+    kw.setdefault('mem', 'M')
+    return H(name, 'codec', props, **kw)
+
+
+K('c02_vbi_all_u32', {'C02': 'quick', 'C03': 'quick'}, bounds='all u32 values', symbolic='v: u32',
+  encodes=['VariableByteInteger::{from_u32,to_u32,size,as_bytes,decode_stream}'])
+K('c04_vbi_decode_all', {'C04': 'quick', 'C02': 'thorough'}, bounds='all byte strings of length 0..=5', symbolic='5 bytes, length', encodes=['VariableByteInteger::decode_stream'])
+K('c04_string_decode_n6', {'C04': 'quick'}, bounds='all byte strings of length 0..=6', symbolic='6 bytes, length', stubs=['core::str::from_utf8 -> utf8_model'], encodes=['MqttString::{decode,as_bytes,size,len}'])
+K('c04_binary_decode_n6', {'C04': 'quick'}, bounds='all byte strings of length 0..=6', symbolic='6 bytes, length', encodes=['MqttBinary::{decode,as_bytes,size,len}'])
+K('c02_string_new_n3', {'C02': 'quick', 'C03': 'quick'}, bounds='all well-formed UTF-8 strings of 0..=3 bytes', symbolic='3 bytes, length', stubs=['core::str::from_utf8 -> utf8_model'], encodes=['MqttString::{new,as_bytes,decode}'])
+for k in ('puback', 'pubrec', 'pubrel', 'pubcomp', 'unsuback'):
+    K('c02_v311_' + k, {'C02': 'quick' if k in ('puback', 'pubrel') else 'thorough', 'C03': 'quick' if k in ('puback', 'pubrel') else 'thorough'},
+      bounds='all u16 and all u32 packet identifiers', symbolic='packet id (u16), packet id (u32)',
+      encodes=['v3_1_1::%s::{builder,build,size,to_buffers,to_continuous_buffer,parse}' % k])
+    K('c04_v311_%s_n4' % k, {'C04': 'quick' if k in ('puback',) else 'thorough'}, bounds='all byte strings of length 0..=4', symbolic='4 bytes, length', encodes=['v3_1_1::%s::parse' % k])
+K('c02_v311_connack', {'C02': 'quick', 'C03': 'quick'}, bounds='session-present flag and return code over all u8', symbolic='flag, return-code byte', encodes=['v3_1_1::Connack', 'ConnectReturnCode::try_from'])
+K('c04_v311_connack_n3', {'C04': 'quick'}, bounds='all byte strings of length 0..=3', symbolic='3 bytes, length', encodes=['v3_1_1::Connack::parse'])
+K('c02_fixed_two_byte_packets', {'C02': 'quick', 'C03': 'quick', 'C04': 'quick'}, bounds='PINGREQ/PINGRESP/DISCONNECT (v3.1.1) and PINGREQ/PINGRESP (v5.0); parse of all bodies of length 0..=2', symbolic='2 bytes, length',
+  encodes=['Pingreq/Pingresp/Disconnect::{new,size,to_buffers,to_continuous_buffer,parse}'])
+for q in (0, 1, 2):
+    K('c02_v311_publish_q%d' % q, {'C02': 'quick' if q == 1 else 'thorough', 'C03': 'quick' if q == 1 else 'thorough'}, est=120,
+      bounds='PUBLISH QoS %d: DUP, RETAIN, 1-byte ASCII topic, packet id (all u16), 2 payload bytes symbolic' % q, symbolic='flags, topic byte, id, payload',
+      stubs=['core::str::from_utf8 -> utf8_model'], encodes=['v3_1_1::GenericPublish::{builder,build,size,to_buffers,to_continuous_buffer,parse}'])
+K('c04_v311_publish_struct', {'C04': 'quick'}, est=120, bounds='body [0,1,t,x,x,x] with 4 symbolic bytes and all 16 flag nibbles', symbolic='flags, 4 bytes',
+  stubs=['core::str::from_utf8 -> utf8_model'], encodes=['v3_1_1::GenericPublish::parse'])
+
+_st = ['core::str::from_utf8 -> utf8_model']
+S('st_recv_puback_v311_persistent', {'C06': 'quick', 'C08': 'quick', 'C05': 'thorough', 'C19': 'thorough'}, stubs=_st,
+  bounds='PUBACK(id r, all u16) received by a connected persistent v3.1.1 client with QoS1 id i and QoS2 id j in flight and stored (i, j symbolic)',
+  symbolic='i, j, r, timer configuration', encodes=['process_recv_v3_1_1_puback', 'GenericStore::erase', 'PacketIdManager'])
+S('st_recv_puback_v5_flow', {'C12': 'quick', 'C06': 'thorough', 'C08': 'thorough', 'C19': 'quick'}, stubs=_st,
+  bounds='PUBACK(id r) received by a connected v5.0 client, Receive Maximum M (all u16 >= 2), two exchanges in flight', symbolic='M, i, j, r', encodes=['process_recv_v5_0_puback', 'handle_v5_0_error'])
+S('st_recv_pubrec_v5_flow', {'C12': 'thorough', 'C06': 'quick', 'C08': 'thorough'}, stubs=_st,
+  bounds='PUBREC(id r, every defined reason code) received by a connected v5.0 client, M symbolic, auto response symbolic', symbolic='M, i, j, r, reason code, auto flag',
+  encodes=['process_recv_v5_0_pubrec', 'process_send_v5_0_pubrel'])
+S('st_recv_pubcomp_flow', {'C12': 'thorough', 'C06': 'thorough', 'C08': 'thorough'}, stubs=_st,
+  bounds='PUBCOMP(id r) received, version symbolic, one id awaiting PUBACK and one awaiting PUBCOMP', symbolic='version, M, i, k, r', encodes=['process_recv_v3_1_1_pubcomp', 'process_recv_v5_0_pubcomp'])
+S('st_send_publish_v311_q1_persistent', {'C06': 'quick', 'C08': 'thorough', 'C11': 'thorough'}, stubs=_st,
+  bounds='QoS1 PUBLISH (id all u16, registered or not) sent on a connected persistent v3.1.1 client', symbolic='id, registered, timer configuration', encodes=['process_send_v3_1_1_publish', 'GenericStore::add'])
+S('st_send_publish_v5_flow', {'C12': 'quick', 'C08': 'quick', 'C06': 'thorough'}, stubs=_st,
+  bounds='QoS1/2 PUBLISH sent on a connected non-persistent v5.0 client; Receive Maximum M and counter symbolic at full width (count <= M)', symbolic='M, count, id, QoS', encodes=['process_send_v5_0_publish'])
+S('st_recv_publish_q2_v311', {'C07': 'quick', 'C05': 'quick', 'C04': 'thorough'}, stubs=_st,
+  bounds='QoS2 PUBLISH (id r all u16 incl. 0, DUP symbolic) received by a connected v3.1.1 client with one handled id h; auto response symbolic', symbolic='h, r, dup, auto flag, payload byte',
+  encodes=['process_recv_v3_1_1_publish', 'v3_1_1::GenericPublish::parse', 'process_send_v3_1_1_pubrec'])
+S('st_recv_pubrel_flow', {'C07': 'quick'}, stubs=_st,
+  bounds='PUBREL(id r) received, version symbolic, two handled ids', symbolic='version, h, g, r, auto flag', encodes=['process_recv_v3_1_1_pubrel', 'process_recv_v5_0_pubrel'])
+S('st_reuse_client_v311_clean_connect', {'C10': 'quick', 'C07': 'thorough'}, stubs=_st,
+  bounds='two objects: a disconnected reused v3.1.1 client with symbolic leftovers (maxima, keep-alive values, one handled QoS2 id, one in-flight id) vs a fresh client, both sending a clean-session CONNECT with the same keep-alive',
+  symbolic='leftover fields, h, i, keep-alive', encodes=['process_send_v3_1_1_connect', 'initialize', 'clear_store_related'])
+
+H('c17_can_receive_table', 'core', {'C17': 'quick'}, est=20, timeout=600, mem='M',
+  bounds='can_receive(t) for all u8 t x {v3.1.1, v5.0} x {Client, Server, Any}', symbolic='t, version', encodes=['GenericConnection::can_receive (3 role instantiations)'])
+for v in ('v311', 'v5'):
+    S('st_dispatch_client_' + v, {'C17': 'quick' if v == 'v311' else 'thorough', 'C05': 'thorough'}, stubs=_st, est=600, mem='L',
+      bounds='process_recv_packet on a connected %s client with a symbolic fixed-header byte (all non-PUBLISH type nibbles and flags), empty body, one id in flight' % v,
+      symbolic='fixed-header byte, id, timer configuration', encodes=['process_recv_packet', 'can_receive', 'every process_recv_* handler reachable with an empty body'])
+    S('st_dispatch_server_' + v, {'C17': 'thorough' if v == 'v311' else 'quick', 'C05': 'thorough'}, stubs=_st, est=600, mem='L',
+      bounds='process_recv_packet on a connected %s server with a symbolic fixed-header byte (all non-PUBLISH type nibbles and flags), empty body' % v,
+      symbolic='fixed-header byte, keep-alive', encodes=['process_recv_packet', 'can_receive', 'every process_recv_* handler reachable with an empty body'])
+S('st_undetermined_first_packet', {'C17': 'quick', 'C05': 'thorough'}, stubs=_st, est=600, mem='L',
+  bounds='first packet on an undetermined-version server: symbolic fixed-header byte (non-PUBLISH), body "MQTT"+level byte (all u8) or truncated', symbolic='fixed-header byte, protocol level, truncated?',
+  encodes=['process_recv_packet (Version::Undetermined branch)', 'process_recv_v3_1_1_connect', 'process_recv_v5_0_connect'])
